@@ -437,15 +437,23 @@ def classify_error(e):
 
 
 def overlapped(run):
-    """F-C07h, identified by its history: the loop thread did connection work (socket I/O, closing or creating a socket, taking
-    packets off the queue) WHILE an application thread was inside reconnect() - between the events appreconnect-begin and
-    appreconnect-end of scenario appreconnect.  The two threads then share self._sock with nobody owning it: the loop thread
+    """F-C07h, identified by its history: the loop thread is in the middle of a loop iteration (not parked in select()) when an
+    application thread enters reconnect(), or does connection work (socket I/O, closing or creating a socket, taking packets
+    off the queue) while that thread is inside reconnect() - between the events appreconnect-begin and appreconnect-end of
+    scenario appreconnect.  The two threads then share self._sock with nobody owning it: the loop thread
     closes / clears / replaces the socket the application thread is setting up, or goes on waiting on the one it replaced."""
     if run.cfg.get("scenario") != "appreconnect":
         return False
     inside = False
+    parked = True           # is the loop thread parked in select() at the top of its iteration?
     for thr, kind, d in run.sched.events:
+        if thr == "L" and kind == "select-park":
+            parked = True
+        elif thr == "L" and kind in ("select-ret", "recv", "send", "popleft", "pipe-recv"):
+            parked = False
         if kind == "appreconnect-begin":
+            if not parked:
+                return True      # the loop thread is in the middle of an iteration (a packet half read, a packet popped ...)
             inside = True
         elif kind == "appreconnect-end":
             inside = False
